@@ -128,6 +128,14 @@ class LabJsonLen(JSONData):
         return len(self._value) if self._value is not None else 0
 
 
+class LabMemOpt(LabMem):
+    """in-memory data class whose constructor takes an (optional) argument: only `run` creates the real object"""
+
+    def __init__(self, note=None):
+        super().__init__()
+        self.note = note
+
+
 class IdentityValue:
     """equal only to itself; its repr shows its identity"""
 
@@ -400,7 +408,7 @@ def lab_run(task, spec, args):
             data.finished()
         return data
     if kind == 'memory':
-        m = LabMem() if int(h[:2], 16) % 2 else LabMemEmpty()
+        m = LabMemOpt(note='made by run') if spec.get('mem_opt') else (LabMem() if int(h[:2], 16) % 2 else LabMemEmpty())
         m.payload = value
         return m
     return value
@@ -470,7 +478,7 @@ def make_task_class(ts, module_name, g):
     arg_names = [p['name'] for p in ts.get('params', []) if p.get('access') == 'args']
     arg_names += [inp['arg'] for inp in ts.get('inputs', []) if inp.get('access') == 'args' and inp['form'] not in ('pattern', 'pattern_all')]
     src = f"def run(self{''.join(', ' + a for a in arg_names)}) -> _RET:\n    return _lab_run(self, _SPEC, {{{', '.join(repr(a) + ': ' + a for a in arg_names)}}})\n"
-    env = {'_RET': RETURN_TYPES[kind], '_lab_run': lab_run, '_SPEC': ts}
+    env = {'_RET': LabMemOpt if (kind == 'memory' and ts.get('mem_opt')) else RETURN_TYPES[kind], '_lab_run': lab_run, '_SPEC': ts}
     exec(src, env)
     if ts.get('meta_base') and ts['meta_base'] in g:
         # `class Meta(Other.Meta): strict = True`: inputs, parameters, group and data class are INHERITED from the other task's Meta
